@@ -20,7 +20,7 @@ def run(tier, seed):
             raise vlib.Infra("ProtoRewrite with %s = FALSE should violate %s (finding %s): the model is vacuous" % (sw, inv, fid))
         ck.add_mc(w, "MC_ProtoRewrite(%s=FALSE: counterexample behind %s)" % (sw, fid))
     rnd = random.Random(seed)
-    scal = [k for k in protocommon.ALL_KINDS if not k.startswith("m")]
+    scal = [k for k in protocommon.ALL_KINDS if not k.startswith("m") and k not in ("rawm", "pmsg", "cmsg")]   # (templates for types with methods of their own are not generated)
     sub = sorted(rnd.sample(scal, 3 if thorough else 2) + rnd.sample(["m1", "m2", "m3", "m4"], 2 if thorough else 1))
     # the rewriter tracks the fields it has seen in a bitmap of 64-bit words (256 bits preallocated): explicit numbers around those sizes
     big = rnd.choice([255, 256, 300, 320])
